@@ -333,6 +333,10 @@ structure KwRes where
 def kwInput : Bytes := [105, 110, 112, 117, 116]
 def kwOutput : Bytes := [111, 117, 116, 112, 117, 116]
 
+/-- `isalnum(c) || c == '_' || c == '-' || c == '.'` (C locale) -/
+def isIdCont (c : UInt8) : Bool :=
+  (48 ≤ c && c ≤ 57) || (65 ≤ c && c ≤ 90) || (97 ≤ c && c ≤ 122) || c == 95 || c == 45 || c == 46
+
 /-- `get_keyword` from `keyword_start:` on (after `optsep` and comments); `depth` is `ctx->depth` (a `uint32_t`) -/
 def kwAt (ind depth : Nat) (s : Bytes) : Except LexErr KwRes :=
   match s with
@@ -364,6 +368,10 @@ def kwAt (ind depth : Nat) (s : Bytes) : Except LexErr KwRes :=
         else if c == 58 then ext false 1 (ind1 + 1) (k + 1) cs
         else if (c == 123 || c == 59) && (s.take k == kwInput || s.take k == kwOutput) then
           .ok { tok := .kw, word := s.take k, ind := ind1, depth := depth, rest := r }
+        else if isIdCont c then
+          -- an identifier that only starts with a keyword: it can still be the prefix of an extension instance (since the
+          -- `fix:` for F105; before, this was `inStrExp`)
+          ext false 0 ind1 k r
         else .error .inStrExp
     else ext (k == 0) 0 ind1 k r
 
